@@ -286,8 +286,11 @@ def check(props, pid, tier, seed, no_bounded=False):
         cov.update(samples=samples or [dict(note='no obligations')])
     ev = dict(property_id=pid, tier=tier, seed=seed, level=plan.level, coverage=cov,
               assumptions=sorted(assumptions) + list(plan.assumptions), wall_s=wall, violations=len(violations))
-    os.makedirs(os.path.join(HERE, 'evidence'), exist_ok=True)
-    with open(os.path.join(HERE, 'evidence', f'{pid}.json'), 'w') as f:
+    # evidence for /repo itself goes to evidence/<id>.json; runs against a scratch copy (COMA_REPO, used by the
+    # self-tests with seeded changes) must not overwrite it
+    evdir = os.path.join(HERE, 'evidence') if os.path.realpath(REPO) == '/repo' else os.path.join(HERE, 'evidence', '.scratch')
+    os.makedirs(evdir, exist_ok=True)
+    with open(os.path.join(evdir, f'{pid}.json'), 'w') as f:
         json.dump(ev, f, indent=1, default=str)
 
     # ---------------------------------------------------------------- verdict
